@@ -629,6 +629,20 @@ func (fe *FuncEnc) enterLoop(f *Frame, li *loopInfo, reach Term, st *State) (Ter
 	st = st.clone()
 	mods := fe.eng.loopModset(f.fn, li)
 	ldirty := fe.eng.loopDirty(f.fn, li)
+	// a component that the loop writes only through values allocated by this invocation keeps every row that existed
+	// at loop entry -- unless the written value was allocated before (outside) the loop: then only the rows that
+	// existed when the function was entered are certainly untouched
+	semi := fe.eng.loopSemiFresh(li)
+	lateCtor := fe.eng.loopLateCtor(li)
+	entryAlloc := map[string]Term{}
+	atEntry := func(as string) Term {
+		if t, ok := entryAlloc[as]; ok {
+			return t
+		}
+		t := fe.atom(fe.comp(f.entry, as, arrSort(SInt, SBool)))
+		entryAlloc[as] = t
+		return t
+	}
 	preAlloc := map[string]Term{}
 	for c := range mods {
 		if as := freshFrameAlloc(c); as != "" && !ldirty[c] {
@@ -660,11 +674,21 @@ func (fe *FuncEnc) enterLoop(f *Frame, li *loopInfo, reach Term, st *State) (Ter
 		nw := fe.fresh(c+"_L", s)
 		st.heap[c] = nw
 		if owner, ok := fe.eng.compOwner[c]; ok && !fe.eng.notCtorOnly[c] {
-			fe.ctorFrame(st, c, old, nw, preAlloc[owner])
+			if lateCtor[c] && f.entry != nil {
+				fe.ctorFrame(st, c, old, nw, atEntry(owner))
+			} else if !lateCtor[c] {
+				fe.ctorFrame(st, c, old, nw, preAlloc[owner])
+			}
 		}
 		if as := freshFrameAlloc(c); as != "" && !ldirty[c] {
 			if a, ok := preAlloc[as]; ok {
-				fe.ctorFrame(st, c, old, nw, a)
+				if semi[c] {
+					if f.entry != nil {
+						fe.ctorFrame(st, c, old, nw, atEntry(as))
+					}
+				} else {
+					fe.ctorFrame(st, c, old, nw, a)
+				}
 			}
 		}
 		if strings.HasPrefix(c, "A_") {
